@@ -139,17 +139,40 @@ def r2(ctx):
 def r3(ctx):
     p = ctx.prog
     f = p.func(f"{SCHED}.schedule")
-    comps = [n for n in f.body_nodes() if isinstance(n, (ast.ListComp, ast.GeneratorExp)) and any(
-        isinstance(x, ast.Call) and isinstance(x.func, ast.Attribute) and x.func.attr == "_process_target" for x in ast.walk(n.elt))]
-    ctx.require(len(comps) == 1, "C12.R3: task fan-out over targets not found")
-    c = comps[0]
+    from ..model import ancestors as _anc
     from ..roles import vars_from
 
+    # the fan-out: the _process_target call sits in a comprehension or a statement loop over the surviving targets
+    pts = [x for x in f.calls() if isinstance(x.func, ast.Attribute) and x.func.attr == "_process_target"]
+    ctx.ob("R3", "schedule creates the target tasks at one place", len(pts) == 1, func=f, node=f.node, instance="fanout:site",
+           message=f"{len(pts)} _process_target call sites in schedule()")
+    if len(pts) != 1:
+        return
+    call = pts[0]
+    it = tgt = None
+    filtered = False
+    c = call
+    for a in _anc(call):
+        if isinstance(a, (ast.ListComp, ast.GeneratorExp, ast.SetComp)):
+            it, tgt, filtered, c = a.generators[0].iter, a.generators[0].target, len(a.generators) != 1 or bool(a.generators[0].ifs), a
+            break
+        if isinstance(a, (ast.For, ast.AsyncFor)):
+            it, tgt, c = a.iter, a.target, a
+            break
+        if isinstance(a, (ast.If, ast.IfExp, ast.While, ast.Try)):
+            filtered = True
+        if isinstance(a, (ast.FunctionDef, ast.AsyncFunctionDef)):
+            break
     tv = vars_from(f, lambda e: isinstance(e, ast.Call) and isinstance(e.func, ast.Attribute) and e.func.attr == "get_targets")
-    ok = len(c.generators) == 1 and isinstance(c.generators[0].iter, ast.Name) and (c.generators[0].iter.id in tv) and not c.generators[0].ifs
-    mk = any(isinstance(x, ast.Call) and unparse(x.func) in ("asyncio.create_task", "asyncio.ensure_future") for x in ast.walk(c.elt))
-    tgt_kw = [k for x in ast.walk(c.elt) if isinstance(x, ast.Call) and isinstance(x.func, ast.Attribute) and x.func.attr == "_process_target" for k in x.keywords if k.arg == "target"]
-    ok_t = bool(tgt_kw) and unparse(tgt_kw[0].value) == unparse(c.generators[0].target)
+    ok = it is not None and isinstance(it, ast.Name) and (it.id in tv) and not filtered
+    mk = False
+    for a in _anc(call):
+        if a is c:
+            break
+        if isinstance(a, ast.Call) and unparse(a.func) in ("asyncio.create_task", "asyncio.ensure_future"):
+            mk = True
+    tgt_kw = [k for k in call.keywords if k.arg == "target"]
+    ok_t = bool(tgt_kw) and tgt is not None and unparse(tgt_kw[0].value) == unparse(tgt)
     ctx.ob("R3", "one _process_target task per surviving target", ok and mk and ok_t, func=f, node=c, instance="fanout")
     waits = [x for x in f.calls() if unparse(x.func) == "asyncio.wait"]
     okw = bool(waits) and any(k.arg == "return_when" and unparse(k.value).endswith("FIRST_COMPLETED") for k in waits[0].keywords)
@@ -160,8 +183,13 @@ def r3(ctx):
     ctx.ob("R3", "result() is called on finished tasks (failures propagate)", okr, func=f, node=res[0] if res else f.node, instance="result",
            message="a failing _process_target task is swallowed: the job is never scheduled and nobody is told")
     # job context shared by all tasks
-    jc = [k for x in ast.walk(c.elt) if isinstance(x, ast.Call) and isinstance(x.func, ast.Attribute) and x.func.attr == "_process_target" for k in x.keywords if k.arg == "job_context"]
-    ctx.ob("R3", "all target tasks share one JobContext (single `scheduled` flag)", bool(jc) and isinstance(jc[0].value, ast.Name), func=f, node=c, instance="shared-context")
+    jc = [k for k in call.keywords if k.arg == "job_context"]
+    from ..dataflow import defs_of as _defs
+
+    # one context for all tasks: the argument is a local bound once, outside the fan-out loop
+    shared = bool(jc) and isinstance(jc[0].value, ast.Name) and len(_defs(f, jc[0].value.id)) == 1 and not any(
+        d.stmt is not None and c in list(_anc(d.stmt)) for d in _defs(f, jc[0].value.id))
+    ctx.ob("R3", "all target tasks share one JobContext (single `scheduled` flag)", shared, func=f, node=c, instance="shared-context")
 
 
 RULES = [("R1", r1), ("R2", r2), ("R3", r3)]
